@@ -128,14 +128,18 @@ func (p *litScanner) value() (string, bool) {
 			if !ok {
 				return "", false
 			}
-			parts = append(parts, key+": "+v)
+			parts = append(parts, key+"\x00: "+v)
 			if strings.HasPrefix(p.s[p.i:], ", ") {
 				p.i += 2
 				continue
 			}
 			if p.i < len(p.s) && p.s[p.i] == '}' {
 				p.i++
+				// sorted by key (the NUL keeps "f1" before "f10" whatever follows the colon)
 				sort.Strings(parts)
+				for i := range parts {
+					parts[i] = strings.Replace(parts[i], "\x00: ", ": ", 1)
+				}
 				return "{" + strings.Join(parts, ", ") + "}", true
 			}
 			return "", false
